@@ -987,10 +987,12 @@ def _get_gp_training_options(
     c = 3 * a
     d = options["gp_train_n_init"]
     eff_starting_points = optim_state["eff_starting_points"]
-    x = (n_eff - eff_starting_points) / (
+    n_left = (
         min(options["max_fun_evals"], options["n_train_max"])
         - eff_starting_points
     )
+    # If the budget ends with the initial design the schedule is at its end
+    x = (n_eff - eff_starting_points) / n_left if n_left != 0 else 1.0
     f = lambda x_: a * x_**3 + b * x**2 + c * x + d
     init_N = max(round(f(x)), options["gp_train_n_init_final"])
     if (
